@@ -280,7 +280,7 @@ class Ctx:
     def coq_eval(self, name: str, text: str, timeout: int = 600):
         """Compile a scratch file (not part of the project) and return (ok, stdout)."""
         SCRATCH.mkdir(exist_ok=True)
-        mod = f"{self.pid}_{name}"
+        mod = f"{self.pid}_{name}_p{os.getpid()}"   # per-process name: concurrent runs must not collide
         p = SCRATCH / f"{mod}.v"
         p.write_text(text)
         rc, out = sh(f"timeout {timeout} coqc -q -Q . S2T Scratch/{mod}.v", cwd=COQ, timeout=timeout + 30)
@@ -291,6 +291,8 @@ class Ctx:
         aux = SCRATCH / f".{mod}.aux"
         if aux.exists():
             aux.unlink()
+        if rc == 0 and p.exists():
+            p.unlink()                               # keep the source only when it failed (diagnosis)
         return rc == 0, out
 
 
